@@ -122,6 +122,35 @@ func checkSingle(col *collector, phase, idx int64, o oname) {
 			break
 		}
 	}
+	// purity: a hash is a function of the name alone, whatever was hashed just before it (the
+	// hashers are pooled objects shared by Name.Hash, Name.PrefixHash and Component.Hash)
+	if len(a) > 0 {
+		before := []struct {
+			what string
+			f    func()
+		}{
+			{"Component.Hash()", func() { _ = a[len(a)-1].Hash() }},
+			{"Name.PrefixHash()", func() { _ = b.PrefixHash() }},
+			{"Name.Hash()", func() { _ = b.Hash() }},
+		}
+		for _, p := range before {
+			p.f()
+			h2 := a.Hash()
+			p.f()
+			ph2 := a.PrefixHash()
+			same := h2 == ha && len(ph2) == len(ph)
+			for k := 0; same && k < len(ph); k++ {
+				same = ph2[k] == ph[k]
+			}
+			if !same {
+				what := p.what
+				col.note("C14.hash", "hash of a name depends on what was hashed just before it ("+what+")", w, func() (string, any) {
+					return fmt.Sprintf("name %s: Hash()=%#x, right after a call of %s: Hash()=%#x, PrefixHash()=%#x (was %#x)", o.Short(), ha, what, h2, ph2, ph), rp()
+				})
+				break
+			}
+		}
+	}
 	// reflexivity
 	if c := a.Compare(b); c != 0 {
 		col.note("C14.total", "Compare(n,n) != 0", w, func() (string, any) {
